@@ -8,10 +8,10 @@ PdProps/C11.lean.
 
 * `Privacy.hidden_inherits` / `Output.hidden_inherits` / `Output.hidden_inside`: a hidden container makes
   everything inside it invisible.
-* `Output.no_trace` (all 28 rows, full strength, no hypothesis): every emitted mention — hyperlink or
+* `Output.no_trace` (all 30 rows, full strength, no hypothesis): every emitted mention — hyperlink or
   listing element — is for a visible object; `Output.no_trace_files`: no page file, anchor, search document
   or inventory line.
-* `Output.private_marked` / `public_unmarked`: the marker on the 9 listing rows.
+* `Output.private_marked` / `public_unmarked`: the marker on the 9 listing rows; `private_marked_classIndex` (row or node marker, 2972983), `private_marked_undocumentedSummary`.
 * `no_trace_named_file` (full since a3977d7), `private_marked_undocumentedSummary` (since fb55ab8).
 * Still false of the current code (open finding): the unlinked base nodes of classIndex.html
   (`no_trace_texts_partial` under `noHiddenBaseNames`, `no_trace_texts_counterexample`).
